@@ -886,6 +886,11 @@ class TransformScenario(ProgramScenario):
                 nh = O.count_hooks(pv)
                 if nh == 0:
                     vio('transform/modified-without-hook-in-printed-program', True, '')
+                if self.prologue:
+                    body = O.program_body(pv)
+                    npro = len([s for s in body if O.is_prologue_stmt(s)]) if not O.is_lazy(body) else 2
+                    if npro != 2:
+                        vio('prologue/missing-or-duplicated', True, 'the printed program of a modified file holds %d of the 2 prologue statements (verbosity %s)' % (npro, getattr(res['cfgspec'], 'verbosity_chosen', res['cfgspec'].verbosity)))
                 pa = to_view(prints[0]['args'], defs)
                 fn = pa.get('source_file_name')
                 if fn is None or O.leaf_eq(fn, 'test.js') is not True:
@@ -893,6 +898,100 @@ class TransformScenario(ProgramScenario):
                 if pa.get('emit_source_map_columns') is not True:
                     vio('transform/column-mappings-disabled', True, '', 'C09')
         info['sample'] = {'input': 'status %s' % st, 'output': 'prints=%d' % len(prints), 'status': st, 'hooks': info['hooks']}
+        return info
+
+
+class RewriteScenario(TransformScenario):
+    """rewriter::rewrite_js(code, file, config, reader): the public entry point.  swc's compiler is stubbed: `try_with_handler`
+    runs the closure with an opaque handler, `SourceMap::new_source_file` records the FileName it is given, `Compiler::parse_js`
+    returns either an error or the symbolic program, `Compiler::print` as in TransformScenario.
+    Contract of swc's source-map builder taken as given (swc_common::source_map::SourceMapGenConfig::skip, default impl):
+    positions of a file whose name is `FileName::Custom(s)` with s starting with '<' (and of Internal / anonymous names)
+    produce NO mappings."""
+
+    FILES = ['dir/test.js', 'test.js', '<anonymous>']
+
+    def grammar(self, ctx, program):
+        g = TransformScenario.grammar(self, ctx, program)
+        g.stubs['Compiler::new'] = lambda I, info, args: Adt('Compiler', None, [Ptr(Cell(models.Opaque('SourceMap')), (), 'arc'), models.Opaque('SwcComments')])
+        g.stubs['SourceMap::new'] = lambda I, info, args: models.Opaque('SourceMap')
+        g.stubs['FilePathMapping::empty'] = lambda I, info, args: models.Opaque('FilePathMapping')
+        g.stubs['try_with_handler'] = self.stub_with_handler
+        g.stubs['SourceMap::new_source_file'] = self.stub_new_source_file
+        g.stubs['new_source_file'] = self.stub_new_source_file
+        g.stubs['Compiler::parse_js'] = self.stub_parse_js
+        g.stubs['EsVersion::latest'] = lambda I, info, args: models.Opaque('EsVersion::latest')
+        g.source_files = []
+        g.parse_outcome = None
+        return g
+
+    def stub_with_handler(self, I, info, args):
+        return I.call_closure(args[2], [Ptr(Cell(models.Opaque('Handler')))])
+
+    def stub_new_source_file(self, I, info, args):
+        name = models.deref(args[1])
+        I.grammar.source_files.append(name)
+        return Ptr(Cell(models.Opaque('SourceFile', {'id': len(I.grammar.source_files)})), (), 'arc')
+
+    def stub_parse_js(self, I, info, args):
+        g = I.grammar
+        ok = [True, False][I.ctx.choose([True, True], 'parse_js: Ok | Err')]
+        g.parse_outcome = ok
+        if not ok:
+            return models.err(models.Opaque('anyhow::Error', {'what': 'syntax error'}))
+        return models.ok(self.make_program(g))
+
+    def run(self, I):
+        g = I.grammar
+        P = I.P
+        P.defs.setdefault('PrintArgs', _rd.StructDef('PrintArgs', [(n, '?') for n in ('source_root', 'source_file_name', 'output_path', 'inline_sources_content', 'source_map', 'source_map_names', 'orig', 'comments', 'emit_source_map_columns', 'preamble', 'codegen_config', 'output')], False, []))
+        P.defs.setdefault('TransformOutput', _rd.StructDef('TransformOutput', [('code', 'String'), ('map', 'Option<String>'), ('output', 'Option<String>')], False, []))
+        P.defs.setdefault('DecodedMap', _rd.EnumDef('DecodedMap', [('Regular', [('0', 'SourceMap')], 'tuple'), ('Index', [('0', 'SourceMapIndex')], 'tuple'), ('Hermes', [('0', 'SourceMapHermes')], 'tuple')], []))
+        c = self.cfgspec
+        cfgspec = ConfigSpec(c.entries, c.prefix, c.verbosity, c.literals, c.comments, c.chain)
+        cfg = cfgspec.build(I)
+        if self.prologue:
+            cfg.fields[P.defs['Config'].index('file_prefix_code')] = self.prologue_stmts(g)
+        cfgspec.prologue_code = PROLOGUE_JS if self.prologue else None
+        file = self.FILES[I.ctx.choose([True] * len(self.FILES), 'file name')]
+        reader = Adt('DefaultFileReader', None, [])
+        r = I.call_path('rewriter::rewrite_js', [StrV(I.ctx.var('source_text', z3.StringSort())), StrV(file), Ptr(Cell(cfg)), Ptr(Cell(reader))], None)
+        return {'result': r, 'cfgspec': cfgspec, 'I': I, 'prints': g.print_calls, 'file': file, 'source_files': g.source_files, 'parse_ok': g.parse_outcome}
+
+    def check_path(self, I, ctx, res, replay, do_tv):
+        g = I.grammar
+        r = res['result']
+        if res['parse_ok'] is False:
+            info = {'violations': [], 'tv': None, 'sample': {'input': 'parse error', 'output': 'Err' if r.variant == 1 else 'Ok', 'status': 'n/a', 'hooks': 0}, 'obligations': 2, 'hooks': 0}
+            if r.variant != 1:
+                info['violations'].append({'prop': 'C13', 'role': 'rewrite/parse-error-not-returned-as-error', 'detail': 'parse_js failed but rewrite_js returned Ok', 'witness': {'input': 'parse error', 'agree': True, 'note': 'glue-level obligation on rewrite_js (swc stubbed)'}})
+            if res['prints']:
+                info['violations'].append({'prop': 'C12', 'role': 'rewrite/printed-after-parse-error', 'detail': '', 'witness': {'input': 'parse error', 'agree': True, 'note': 'glue-level obligation on rewrite_js (swc stubbed)'}})
+            return info
+        info = TransformScenario.check_path(self, I, ctx, res, replay, do_tv)
+        info['obligations'] += 2
+        defs = I.P.defs
+        file = res['file']
+        sfs = res['source_files']
+        if len(sfs) != 1:
+            info['violations'].append({'prop': 'C09', 'role': 'rewrite/input-registered-%d-times' % len(sfs), 'detail': '', 'witness': {'input': file, 'agree': True, 'note': 'glue-level obligation'}})
+            return info
+        fv = to_view(sfs[0], defs)
+        kindv = fv.get('_v') if isinstance(fv, dict) else None
+        payload0 = fv.get('_0') if isinstance(fv, dict) else None
+        name = None
+        if isinstance(payload0, dict) and '_fields' in payload0:
+            name = payload0['_fields'][0]
+        elif isinstance(payload0, (str, z3.ExprRef)):
+            name = payload0
+        skipped = (kindv in ('Internal', 'Anon', 'MacroExpansion', 'ProcMacroSourceCode', 'QuoteExpansion')) or (kindv == 'Custom' and isinstance(name, str) and name.startswith('<'))
+        if skipped:
+            nat = replay().rewrite('function f(a, b) { return a + b; }', {'methods': [{'src': 'plusOperator', 'operator': True}]}, file=file)
+            nm = len(decode_mappings(json.loads(nat['source_map']).get('mappings', ''))) if nat.get('ok') and nat.get('source_map') else None
+            info['violations'].append({'prop': 'C09', 'role': 'map/input-file-registered-under-a-name-the-map-builder-skips:%s' % kindv, 'detail': 'file %r is registered as FileName::%s(%r): swc emits no mapping for such a file' % (file, kindv, name),
+                                       'witness': {'input': 'function f(a, b) { return a + b; }', 'file': file, 'agree': nm == 0, 'predicted_output': 'a source map without mappings', 'native_output': nat.get('source_map'), 'native': {'ok': nat.get('ok'), 'mappings': nm}}})
+        elif kindv == 'Real' and name is not None and O.leaf_eq(name, file) is not True:
+            info['violations'].append({'prop': 'C09', 'role': 'rewrite/input-registered-under-a-different-path', 'detail': 'file %r registered as %r' % (file, name), 'witness': {'input': file, 'agree': True, 'note': 'glue-level obligation'}})
         return info
 
 
